@@ -500,6 +500,24 @@ func hashUF(fr *frame, name string, in []value) value {
 		}
 		_ = allConst
 		app = mkUF(fn, 256, arg)
+		// collision freedom on the points queried on this path: H(a) = H(b) => a = b
+		// (an assumption about the environment, recorded in the evidence)
+		ex := fr.i.ex
+		// (stated on the first 27 bytes, the part the state-key construction keeps:
+		// the JAM state trie relies on exactly this)
+		top := func(t *Term) *Term { return mkExtract(t, 255, 40) }
+		for _, prev := range ex.ufApps[name] {
+			switch {
+			case prev.arg.w != arg.w:
+				// inputs of different lengths are different inputs
+				ex.addPC(mkNot(mkEq(top(app), top(prev.app))))
+			case sameTerm(prev.arg, arg):
+			default:
+				ex.addPC(mkOr(mkNot(mkEq(top(app), top(prev.app))), mkEq(arg, prev.arg)))
+			}
+		}
+		ex.ufApps[name] = append(ex.ufApps[name], ufApp{arg: arg, app: app})
+		ex.stubs["assumption: "+name+" is collision-free on the inputs hashed on a path"]++
 	}
 	out := make(array, 32)
 	for i := 0; i < 32; i++ {
